@@ -192,6 +192,7 @@ def eqV (a b : V) : Option Bool :=
   | .ptr h, .nil | .nil, .ptr h => some h.isNone
   | .user u, .nil | .nil, .user u => some u.isNone
   | .cookie c, .nil | .nil, .cookie c => some c.isNone
+  | .nil, .nil => some true           -- a variable that was assigned the untyped `nil`
   | .int x, .int y => some (x == y)
   | .bool x, .bool y => some (x == y)
   | .str x, .str y => some (x == y)
